@@ -324,5 +324,68 @@ def run(chk, prog):
         chk.check(imp and pl and imp[0] < pl[0], "R4", f.where, "prepareFFT consults the wisdom file before planning", "prepareFFT:wisdom-first:%s" % f["sig"])
     for key_ in list(mm.eff.memo):
         chk.functions.add(key_[0])
+    # ---- R5: what an observer computes is a function of the current grid, not of what it computed last time ----------------------------------------
+    # "records present in two runs with different cadence are identical": a member function of the grid that the output block calls and
+    # that writes members (moments, rms, energy projection) must not read one of the members it writes before it has written it in this
+    # call - directly or through a member function it calls first (variance() calls average() before it reads the mean).
+    ps_methods = {f["qname"]: f for f in prog.functions.values() if f.get("class") == "vfps::PhaseSpace" and f.get("body") and f.get("kind") not in ("ctor", "dtor")}
+
+    def direct_writes(f):
+        out = set()
+        for x, lhs, op, rhs in A.assignments_in(f["body"]):
+            cur = A.strip(lhs)
+            while isinstance(cur, dict) and A.this_field(cur) is None and (cur.get("c") or cur.get("args")):
+                cur = A.strip((cur.get("args") or cur.get("c"))[0])
+            fld = A.this_field(cur) if isinstance(cur, dict) else None
+            if fld:
+                out.add(fld)
+        return out
+    dw = {q: direct_writes(f) for q, f in ps_methods.items()}
+
+    def all_writes(q, seen=()):
+        if q in seen or q not in ps_methods:
+            return set()
+        w = set(dw[q])
+        for y in A.walk(ps_methods[q]["body"]):
+            if y.get("k") == "CXXMemberCallExpr" and y.get("callee") in ps_methods and (A.call_object(y) is None or A.is_this(A.strip(A.call_object(y)))):
+                w |= all_writes(y["callee"], seen + (q,))
+        return w
+    called_in_block = {y.get("callee") for y in A.walk(ob["then"]) if y.get("k") == "CXXMemberCallExpr" and y.get("callee") in ps_methods}
+    n5 = 0
+    for q in sorted(called_in_block):
+        f = ps_methods[q]
+        W = all_writes(q)
+        if not W:
+            continue
+        chk.used(f)
+        events5 = []          # (order, kind, field)
+        lhs_ids = set()
+        for x, lhs, op, rhs in A.assignments_in(f["body"]):
+            cur = A.strip(lhs)
+            while isinstance(cur, dict) and A.this_field(cur) is None and (cur.get("c") or cur.get("args")):
+                cur = A.strip((cur.get("args") or cur.get("c"))[0])
+            fld = A.this_field(cur) if isinstance(cur, dict) else None
+            if fld in W:
+                events5.append((x["id"], "store" if op == "=" else "update", fld, x))
+                if op == "=":
+                    lhs_ids |= {y["id"] for y in A.walk(lhs) if A.this_field(y) == fld}
+        for y in A.walk(f["body"]):
+            if y.get("k") == "CXXMemberCallExpr" and y.get("callee") in ps_methods and (A.call_object(y) is None or A.is_this(A.strip(A.call_object(y)))):
+                for fld in all_writes(y["callee"]):
+                    events5.append((y["id"], "store", fld, y))
+            if y.get("k") == "MemberExpr" and A.this_field(y) in W and y["id"] not in lhs_ids:
+                events5.append((y["id"], "read", A.this_field(y), y))
+        events5.sort(key=lambda t: t[0])
+        for o_, kind, fld, node in events5:
+            if kind not in ("read", "update"):
+                continue
+            if kind == "read" and any(k2 == "update" and n2["id"] <= o_ <= max(z["id"] for z in A.walk(n2)) and f2 == fld for o2, k2, f2, n2 in events5):
+                continue            # the read inside a compound assignment is that update
+            before = [t for t in events5 if t[0] < o_ and t[1] == "store" and t[2] == fld]
+            n5 += 1
+            chk.check(bool(before), "R5", A.loc(f, node), "%s (called when a record is written) %s %s only after it has stored it in the same call%s"
+                      % (f["name"], "reads" if kind == "read" else "updates", fld, "" if before else " -- it sees the value left by the previous call: records depend on the output cadence"),
+                      "observer-history:%s:%s" % (f["name"], fld))
+    chk.floor("R5-observer-self-reads", n5, 2)
     chk.notes.append("C12: E4 write sets of every call in the output block vs. the simulation state, observer-free control/data of state-writing calls, "
                      "tracking as a sink, who-may-call for nondeterminism sources. NOT decided: bit-identity of two concrete executions.")
